@@ -387,4 +387,34 @@ theorem seen_other (i : Nat) (d : StepDraw V) (e : Env V) (v : Nat) (hv : v ∉ 
 
 end
 
+/-! ### Concrete data for the non-vacuity examples (carrier `Int`)
+columns: 0 exposure A, 1 outcome Y, 2 time_in, 3 time_out, 4 uncensored, 5 covariate L, 8 A_l1, 9 A_l2, 10 L_l1,
+12 cumA -/
+namespace Ex
+def cols : Cols := ⟨0, 1, 2, 3, 4⟩
+/-- custom rule `(g['L'] == 1) | (g['A_l1'] == 1)`, covariate model for L, censoring model,
+    out_recode `g['cumA'] = g['cumA'] + g['A']`, lags {'A_l1': 'A_l2', 'A': 'A_l1', 'L': 'L_l1'} -/
+def cfg : Config Int :=
+  { cols := cols, covs := [⟨1, 5, []⟩]
+    plan := .custom (.or (.cmp .eq (.var 5) (.const 1)) (.cmp .eq (.var 8) (.const 1)))
+    cens := true, inRecode := [], outRecode := [⟨12, .add (.var 12) (.var 0)⟩]
+    lags := [(8, 9), (0, 8), (5, 10)] }
+def cfgAll : Config Int := { cfg with plan := .all }
+def cfgNone : Config Int := { cfg with plan := .none }
+def cfgNat : Config Int := { cfg with plan := .natural }
+/-- the same with the first-order lag listed before the second-order one -/
+def cfgFwd : Config Int := { cfgNat with lags := [(0, 8), (8, 9), (5, 10)] }
+def base : Env Int := ⟨fun _ => 0⟩
+/-- L draws 0,1,0,…; exposure draws 1,0,0; outcome 0,0,1; uncensored 1,1,1 -/
+def draws : Nat → StepDraw Int := fun i =>
+  ⟨fun _ => if i = 1 then 1 else 0, i == 0, i == 2, true⟩
+/-- censored in the second interval -/
+def drawsC : Nat → StepDraw Int := fun i => ⟨fun _ => 0, false, i == 1, i != 1⟩
+theorem safe : Safe cfg := ⟨by decide, by decide⟩
+theorem safeAll : Safe cfgAll := ⟨by decide, by decide⟩
+theorem safeNone : Safe cfgNone := ⟨by decide, by decide⟩
+theorem safeNat : Safe cfgNat := ⟨by decide, by decide⟩
+theorem num01 : Num01 Int := ⟨by decide, by decide, by decide⟩
+end Ex
+
 end ZV.MC
